@@ -200,6 +200,28 @@ type optCase struct {
 	expect       string // "equal" | "failA" (A must fail with empty stdout)
 }
 
+// k structurally identical orphan branches (same date, same sizes), each with an annotated tag
+func tieRepo(r *rng) ([]gObj, []int64, []string) {
+	k := 2 + r.n(3)
+	var objs []gObj
+	var refs []string
+	sz := uint64(100 + r.n(2000))
+	pad, tagpad := r.n(100), r.n(50)
+	for b := 0; b < k; b++ {
+		base := len(objs)
+		objs = append(objs, gObj{kind: 'b', size: sz})
+		objs = append(objs, gObj{kind: 't', entries: []gEntry{{0o100644, []byte(fmt.Sprintf("f%d.txt", b)), base}}})
+		objs = append(objs, gObj{kind: 'c', tree: base + 1, pad: pad})
+		objs = append(objs, gObj{kind: 'g', ref: base + 2, refKind: 'c', pad: tagpad})
+		refs = append(refs, fmt.Sprintf("refs/heads/b%d=%d", b, base+2), fmt.Sprintf("refs/tags/v%d=%d", b, base+3))
+	}
+	times := make([]int64, len(objs))
+	for i := range times {
+		times[i] = 1600000000
+	}
+	return objs, times, refs
+}
+
 func cfgEnv(cfg []string) []string {
 	env := []string{"GIT_CONFIG_COUNT=" + strconv.Itoa(len(cfg))}
 	for i, kv := range cfg {
@@ -220,15 +242,32 @@ func genOptCase(r *rng) optCase {
 		return s
 	}
 	out := [][]string{{}, {"--json"}, {"-j"}, {"--json", "--json-version=2"}, {"--json", "--json-version=1"}}[r.n(5)]
-	switch r.n(12) {
+	which := r.n(16)
+	if which >= 12 { // the threshold family gets a third of the cases
+		which = 1
+	}
+	if (which == 0 || which == 1 || which == 5 || which == 8) && r.n(4) != 0 {
+		out = []string{} // the threshold only shows in the table
+	}
+	switch which {
 	case 0: // equivalent spellings of one threshold option
 		t := thr[r.n(len(thr))]
 		return optCase{argsA: append([]string{t}, out...), argsB: append([]string{c(t)}, out...), expect: "equal"}
 	case 1: // the last of the threshold family wins
 		n := 2 + r.n(3)
 		var seq []string
-		for i := 0; i < n; i++ {
-			seq = append(seq, thr[r.n(len(thr))])
+		if r.n(2) == 0 {
+			for i := 0; i < n; i++ {
+				seq = append(seq, thr[r.n(len(thr))])
+			}
+		} else { // the same option again after others of the family: A X.. A
+			a := thr[r.n(len(thr))]
+			seq = append(seq, a)
+			for i := 0; i < 1+r.n(3); i++ {
+				seq = append(seq, thr[r.n(len(thr))])
+			}
+			seq = append(seq, a)
+			n = len(seq)
 		}
 		return optCase{argsA: append(seq, out...), argsB: append([]string{c(seq[n-1])}, out...), expect: "equal"}
 	case 2: // -j == --json
@@ -492,6 +531,20 @@ func init() {
 			args, roots := genSelection(r, objs, refs)
 			style := []string{"full", "hash", "none"}[r.n(3)]
 			format := []string{"table", "json1", "json2"}[r.n(3)]
+			if r.n(3) == 0 {
+				// several roots whose objects tie for every maximum and carry the same date: the
+				// cited witnesses then depend on the order in which the roots are fed and processed
+				objs, times, refs = tieRepo(r)
+				objs = realSizes(objs, times)
+				args, roots = nil, nil
+				for _, rf := range refs { // all references are selected
+					idx, _ := strconv.Atoi(strings.SplitN(rf, "=", 2)[1])
+					roots = append(roots, idx)
+				}
+				if style == "none" {
+					style = "full"
+				}
+			}
 			return []string{encRepo(objs), timesJoin(times), joinOrDash(refs, ","), encArgs(args), intsJoin(roots), style, format}
 		},
 		exec: func(in []string) []string {
@@ -527,13 +580,18 @@ func init() {
 			o1, e1, c1 := runCmd(w, envWith(gitEnv(), "GOMAXPROCS=1"), nil, bin, append([]string{"--no-progress"}, sargs...)...)
 			o2, e2, c2 := runCmd(w, envWith(gitEnv(), "GOMAXPROCS=16"), nil, bin, append([]string{"--progress"}, sargs...)...)
 			o3, _, c3 := runCmd(w, envWith(gitEnv(), "GOMAXPROCS=4"), nil, bin, append([]string{"--no-progress"}, sargs...)...)
+			same := bytes.Equal(o1, o2) && bytes.Equal(o1, o3)
+			for k := 0; k < 3 && same; k++ { // further runs: randomised iteration orders show up only sometimes
+				ok, _, ck := runCmd(w, envWith(gitEnv(), "GOMAXPROCS="+strconv.Itoa(2+k)), nil, bin, append([]string{"--no-progress"}, sargs...)...)
+				same = same && bytes.Equal(o1, ok) && ck == c1
+			}
 			after := snapshotDir(w)
 			race := bytes.Contains(e1, []byte("DATA RACE")) || bytes.Contains(e2, []byte("DATA RACE"))
 			var counts []string
 			for _, m := range progressRe.FindAllSubmatch(e2, -1) {
 				counts = append(counts, hxs(string(m[1]))+"="+string(m[2]))
 			}
-			return []string{"ran", fmt.Sprintf("%d,%d,%d", c1, c2, c3), boolStr(bytes.Equal(o1, o2) && bytes.Equal(o1, o3)), boolStr(before == after),
+			return []string{"ran", fmt.Sprintf("%d,%d,%d", c1, c2, c3), boolStr(same), boolStr(before == after),
 				boolStr(race), joinOrDash(counts, ","), boolStr(len(e1) == 0), strconv.Itoa(len(o1))}
 		},
 		class: func(in, res []string) string { return res[0] + "/" + in[6] + "/" + in[5] },
